@@ -61,9 +61,9 @@ type item struct {
 	v int
 }
 
-func (i *item) Key() ledger.LedgerKey             { return i.k }
-func (i *item) Encode() ([]byte, xerrors.XError)  { return append(i.k[:], byte(i.v)), nil }
-func (i *item) Decode(b []byte) xerrors.XError    { copy(i.k[:], b[:32]); i.v = int(b[32]); return nil }
+func (i *item) Key() ledger.LedgerKey            { return i.k }
+func (i *item) Encode() ([]byte, xerrors.XError) { return append(i.k[:], byte(i.v)), nil }
+func (i *item) Decode(b []byte) xerrors.XError   { copy(i.k[:], b[:32]); i.v = int(b[32]); return nil }
 
 // D3: del -> set -> get
 func TestD3(t *testing.T) {
